@@ -16,10 +16,10 @@ cd $W/wt/cola && make -k -j16 check > $W/check.log 2>&1
 echo "suite with change: $(grep -E '^# (TOTAL|PASS|FAIL|ERROR)' $W/check.log | paste -sd' ')"
 grep -E '^(FAIL|ERROR):' $W/check.log | head
 LIBS="$W/wt/cola/libdialect/.libs/libdialect.a $W/wt/cola/libcola/.libs/libcola.a $W/wt/cola/libtopology/.libs/libtopology.a $W/wt/cola/libavoid/.libs/libavoid.a $W/wt/cola/libvpsc/.libs/libvpsc.a"
-g++ -std=gnu++11 -O1 -g -I$W/wt/cola "$@" $OUT/demo.cpp $LIBS -o $W/demo_mod 2>&1 | tail -3
+g++ -std=gnu++11 -O1 -g -I$W/wt/cola "$@" $OUT/demo.cpp -Wl,--start-group $LIBS -Wl,--end-group -o $W/demo_mod 2>&1 | tail -3
 (cd $OUT && timeout 600 $W/demo_mod > $W/demo_mod.out 2>&1; echo "demo with change: exit $?"; tail -3 $W/demo_mod.out)
 cd $W/wt && git checkout -- . && cd cola && make -k -j16 > $W/rebuild.log 2>&1
-g++ -std=gnu++11 -O1 -g -I$W/wt/cola "$@" $OUT/demo.cpp $LIBS -o $W/demo_orig 2>&1 | tail -3
+g++ -std=gnu++11 -O1 -g -I$W/wt/cola "$@" $OUT/demo.cpp -Wl,--start-group $LIBS -Wl,--end-group -o $W/demo_orig 2>&1 | tail -3
 (cd $OUT && timeout 600 $W/demo_orig > $W/demo_orig.out 2>&1; echo "demo without change: exit $?"; tail -3 $W/demo_orig.out)
 } > $LOG 2>&1
 git -C /repo worktree remove --force $W/wt
